@@ -275,4 +275,145 @@ example : (updateWithBuffer onlyMck permsReserve true 10 11 [(Key.index .Reserve
 example : ((updateWithBuffer onlyMck permsReserve true 10 11 [(Key.index .ReserveFactor, 1), (Key.index .ReserveFactor, 5)] Cfg.zero).1.get .ReserveFactor)
     = some 5 := by decide +kernel
 
+/-! ## audit additions -/
+
+def onlyMk : Role → Bool := fun r => r == .MARKET_KEEPER
+def noRole : Role → Bool := fun _ => false
+
+/-- `keeper_any_key` on a key that is NOT updatable for config keepers -/
+example : ∃ c', Cfg.zero.set .MinCollateralValue 7 = some c' ∧
+    updateFactor onlyMk permsReserve (some .MinCollateralValue) 7 Cfg.zero = (c', .ok ()) :=
+  keeper_any_key onlyMk permsReserve .MinCollateralValue 7 Cfg.zero rfl
+/-- `config_keeper_only_updatable`, both branches (the premises `p.factor k = true/false` are both met) -/
+example : ∃ c', Cfg.zero.set .ReserveFactor 7 = some c' ∧
+    updateFactor onlyMck permsReserve (some .ReserveFactor) 7 Cfg.zero = (c', .ok ()) :=
+  (config_keeper_only_updatable onlyMck permsReserve .ReserveFactor 7 Cfg.zero rfl rfl).1 (by decide)
+example : updateFactor onlyMck permsReserve (some .MinCollateralValue) 7 Cfg.zero = (Cfg.zero, .error .permissionDenied) :=
+  (config_keeper_only_updatable onlyMck permsReserve .MinCollateralValue 7 Cfg.zero rfl rfl).2 (by decide)
+example : updateFactor noRole permsReserve (some .ReserveFactor) 7 Cfg.zero = (Cfg.zero, .error .permissionDenied) :=
+  (stranger_rejected noRole permsReserve rfl rfl).1 _ _ _
+example : updateWithBuffer noRole permsReserve true 10 11 [(Key.index .ReserveFactor, 1)] Cfg.zero
+    = (Cfg.zero, .error .permissionDenied) :=
+  (stranger_rejected noRole permsReserve rfl rfl).2.2 _ _ _ _ _
+example : updateFlag onlyMk permsReserve (some .EnableMarketClosedParams) true Cfg.zero
+    = (Cfg.zero.setFlag .EnableMarketClosedParams true, .ok ()) :=
+  flag_keeper_any onlyMk permsReserve .EnableMarketClosedParams true Cfg.zero rfl
+example : updateFlag onlyMck ⟨fun _ => false, fun x => x == .EnableMarketClosedParams⟩ (some .EnableMarketClosedParams) true Cfg.zero
+    = (Cfg.zero.setFlag .EnableMarketClosedParams true, .ok ()) :=
+  (flag_config_keeper_only_updatable onlyMck _ .EnableMarketClosedParams true Cfg.zero rfl rfl).1 (by decide)
+example : updateFlag onlyMck permsReserve (some .EnableMarketClosedParams) true Cfg.zero
+    = (Cfg.zero, .error .permissionDenied) :=
+  (flag_config_keeper_only_updatable onlyMck permsReserve .EnableMarketClosedParams true Cfg.zero rfl rfl).2 (by decide)
+
+/-- `buffer_all_or_nothing`: an updatable entry FIRST, a non-updatable one after it — nothing is written -/
+example : (updateWithBuffer onlyMck permsReserve true 10 11
+      [(Key.index .ReserveFactor, 1), (Key.index .MinCollateralValue, 2)] Cfg.zero).1 = Cfg.zero :=
+  (buffer_all_or_nothing onlyMck permsReserve 10 11 _ Cfg.zero rfl rfl (by decide +kernel)).1
+/-- … and an undecodable raw key counts as not updatable -/
+example : allUpdatable permsReserve [(Key.index .ReserveFactor, 1), (60000, 2)] = false := by decide +kernel
+example : (updateWithBuffer onlyMk permsReserve true 11 11 [(Key.index .ReserveFactor, 1)] Cfg.zero).1 = Cfg.zero ∧
+    (updateWithBuffer onlyMk permsReserve true 11 11 [(Key.index .ReserveFactor, 1)] Cfg.zero).2 ≠ .ok () :=
+  expired_buffer_rejected onlyMk permsReserve true 11 11 _ Cfg.zero (by decide)
+/-- `buffer_applies_in_order`: both disjuncts of the permission premise -/
+example : updateWithBuffer onlyMk permsReserve true 10 11 [(Key.index .MinCollateralValue, 2), (Key.index .ReserveFactor, 1)] Cfg.zero
+    = applyEntries [(Key.index .MinCollateralValue, 2), (Key.index .ReserveFactor, 1)] Cfg.zero :=
+  keeper_buffer_any_keys onlyMk permsReserve 10 11 _ Cfg.zero (by decide) rfl
+example : updateWithBuffer onlyMck permsReserve true 10 11 [(Key.index .ReserveFactor, 1), (Key.index .ReserveFactor, 5)] Cfg.zero
+    = applyEntries [(Key.index .ReserveFactor, 1), (Key.index .ReserveFactor, 5)] Cfg.zero :=
+  buffer_applies_in_order onlyMck permsReserve 10 11 _ Cfg.zero (by decide) (.inr ⟨rfl, by decide +kernel⟩)
+/-- … and `applyEntries` really succeeds there (the right-hand side above is not an error) -/
+example : (applyEntries [(Key.index .MinCollateralValue, 2), (Key.index .ReserveFactor, 1)] Cfg.zero).2 = .ok () ∧
+    (applyEntries [(Key.index .MinCollateralValue, 2), (Key.index .ReserveFactor, 1)] Cfg.zero).1.get .MinCollateralValue = some 2 :=
+  ⟨by rfl, by decide +kernel⟩
+/-- `applyEntries` stops at the first undecodable raw key, KEEPING the writes made before it (this is
+inside the handler; only the runtime's rollback undoes them) -/
+example : (applyEntries [(Key.index .ReserveFactor, 1), (60000, 2)] Cfg.zero).2 = .error .invalidKey ∧
+    (applyEntries [(Key.index .ReserveFactor, 1), (60000, 2)] Cfg.zero).1.get .ReserveFactor = some 1 :=
+  ⟨by rfl, by decide +kernel⟩
+
+/-! role tables: a live market keeper with the OTHER role never enabled / disabled / enabled -/
+def tKeeper (other : RoleState) : RoleTable :=
+  ⟨fun r => if r = .MARKET_KEEPER then .enabled else other, true, fun r => r == .MARKET_KEEPER⟩
+example : IsLiveKeeper (tKeeper .never) ∧ IsLiveKeeper (tKeeper .disabled) ∧ IsLiveKeeper (tKeeper .enabled) := by
+  refine ⟨⟨rfl, rfl, rfl⟩, ⟨rfl, rfl, rfl⟩, ⟨rfl, rfl, rfl⟩⟩
+example : guardE (info .store_update_market_config).attr (tKeeper .never) = .ok () :=
+  (market_keeper_passes_regardless_of_other_role (tKeeper .never) ⟨rfl, rfl, rfl⟩).1
+example : ∃ c', Cfg.zero.set .MinCollateralValue 7 = some c' ∧
+    updateFactorE (tKeeper .disabled) permsReserve (some .MinCollateralValue) 7 Cfg.zero = (c', .ok ()) :=
+  keeper_any_key_any_role_table (tKeeper .disabled) ⟨rfl, rfl, rfl⟩ permsReserve .MinCollateralValue 7 Cfg.zero
+example : updateFlagE (tKeeper .never) permsReserve (some .EnableMarketClosedParams) true Cfg.zero
+    = (Cfg.zero.setFlag .EnableMarketClosedParams true, .ok ()) :=
+  keeper_any_flag_any_role_table (tKeeper .never) ⟨rfl, rfl, rfl⟩ permsReserve .EnableMarketClosedParams true Cfg.zero
+example : updateWithBufferE (tKeeper .never) permsReserve true 10 11 [(Key.index .MinCollateralValue, 2)] Cfg.zero
+    = applyEntries [(Key.index .MinCollateralValue, 2)] Cfg.zero :=
+  keeper_buffer_any_role_table (tKeeper .never) ⟨rfl, rfl, rfl⟩ permsReserve 10 11 _ Cfg.zero (by decide)
+/-- `stranger_rejected_any_role_table`, both disjuncts of its premise -/
+example : (updateFactorE ⟨fun _ => .enabled, false, fun _ => true⟩ permsReserve (some .ReserveFactor) 7 Cfg.zero).2
+    = .error .permissionDenied :=
+  ((stranger_rejected_any_role_table ⟨fun _ => .enabled, false, fun _ => true⟩ permsReserve (.inl rfl)).1 _ _ _).2
+example : (updateFactorE ⟨fun _ => .enabled, true, fun r => r == .ORDER_KEEPER⟩ permsReserve (some .ReserveFactor) 7 Cfg.zero).2
+    = .error .permissionDenied :=
+  ((stranger_rejected_any_role_table ⟨fun _ => .enabled, true, fun r => r == .ORDER_KEEPER⟩ permsReserve
+      (.inr ⟨rfl, rfl, rfl, rfl⟩)).1 _ _ _).2
+
+/-- a caller who is a member and holds MARKET_CONFIG_KEEPER only, with BOTH roles enabled in the store -/
+def IsLiveConfigKeeper (t : RoleTable) : Prop :=
+  t.member = true ∧ t.state .MARKET_KEEPER = .enabled ∧ t.bit .MARKET_KEEPER = false ∧
+  t.state .MARKET_CONFIG_KEEPER = .enabled ∧ t.bit .MARKET_CONFIG_KEEPER = true
+
+/-- The role-table (order-sensitive) counterpart of `config_keeper_only_updatable`, which the file
+only had for the Boolean guard: with both roles enabled, a config keeper writes exactly the updatable
+keys and is refused (`PermissionDenied`, config untouched) on the others. Together with
+`config_keeper_needs_enabled_keeper_role_witness` this delimits the config keeper completely. -/
+theorem config_keeper_only_updatable_role_table (t : RoleTable) (h : IsLiveConfigKeeper t) (p : Perms)
+    (k : Key) (v : Nat) (c : Cfg) :
+    (p.factor k = true → ∃ c', c.set k v = some c' ∧ updateFactorE t p (some k) v c = (c', .ok ())) ∧
+    (p.factor k = false → updateFactorE t p (some k) v c = (c, .error .permissionDenied)) := by
+  obtain ⟨hm, he1, hb1, he2, hb2⟩ := h
+  obtain ⟨c', hc'⟩ := set_some c k v
+  have hgE : guardE (info .store_update_market_config).attr t = .ok () := by
+    simp [guardE, info, ensureAnyE, hasRoleE, hm, he1, hb1, he2, hb2]
+  have hg : guardRes t [.MARKET_KEEPER] = .error .permissionDenied := by
+    simp [guardRes, ensureAnyE, hasRoleE, hm, he1, hb1, ofG]
+  constructor
+  · intro hu
+    refine ⟨c', hc', ?_⟩
+    unfold updateFactorE withGuard
+    simp only [hgE]
+    simp [factorHandler, runFactorE, factorUpdatable_eq, hu, hc']
+  · intro hu
+    unfold updateFactorE withGuard
+    simp only [hgE]
+    simp [factorHandler, runFactorE, factorUpdatable_eq, hu, hg]
+
+def tConfigKeeper : RoleTable := ⟨fun _ => .enabled, true, fun r => r == .MARKET_CONFIG_KEEPER⟩
+example : ∃ c', Cfg.zero.set .ReserveFactor 7 = some c' ∧
+    updateFactorE tConfigKeeper permsReserve (some .ReserveFactor) 7 Cfg.zero = (c', .ok ()) :=
+  (config_keeper_only_updatable_role_table tConfigKeeper ⟨rfl, rfl, rfl, rfl, rfl⟩ permsReserve .ReserveFactor 7 Cfg.zero).1
+    (by decide)
+example : updateFactorE tConfigKeeper permsReserve (some .MinCollateralValue) 7 Cfg.zero = (Cfg.zero, .error .permissionDenied) :=
+  (config_keeper_only_updatable_role_table tConfigKeeper ⟨rfl, rfl, rfl, rfl, rfl⟩ permsReserve .MinCollateralValue 7 Cfg.zero).2
+    (by decide)
+
+/-- `stranger_rejected_any_role_table` omits the third instruction; the buffer variant is rejected for
+the same callers too, config untouched (a foreign buffer is refused even earlier) -/
+theorem stranger_buffer_rejected_any_role_table (t : RoleTable) (p : Perms)
+    (h : t.member = false ∨ (t.state .MARKET_KEEPER = .enabled ∧ t.state .MARKET_CONFIG_KEEPER = .enabled ∧
+          t.bit .MARKET_KEEPER = false ∧ t.bit .MARKET_CONFIG_KEEPER = false)) :
+    ∀ owned now expiry es c, updateWithBufferE t p owned now expiry es c = (c, .error .permissionDenied) := by
+  have hg : guardE (info .store_update_market_config_with_buffer).attr t = .error .permissionDenied := by
+    have hix : (info .store_update_market_config_with_buffer).attr = some [.MARKET_KEEPER, .MARKET_CONFIG_KEEPER] := by decide
+    rw [hix]
+    rcases h with hm | ⟨h1, h2, h3, h4⟩
+    · simp [guardE, ensureAnyE, hasRoleE, hm]
+    · cases hm : t.member <;> simp [guardE, ensureAnyE, hasRoleE, hm, h1, h2, h3, h4]
+  intro owned now expiry es c
+  unfold updateWithBufferE withGuard
+  rw [hg]
+  cases owned <;> simp [ofG]
+
+example : updateWithBufferE ⟨fun _ => .enabled, false, fun _ => true⟩ permsReserve true 10 11 [(Key.index .ReserveFactor, 1)] Cfg.zero
+    = (Cfg.zero, .error .permissionDenied) :=
+  stranger_buffer_rejected_any_role_table _ permsReserve (.inl rfl) _ _ _ _ _
+
 end Gmx.C20
